@@ -639,10 +639,6 @@ def parse_equation(equation: str) -> List[Symbol]:
     # loop below
     symbols: Dict[str, Symbol] = {}
 
-    # `functions` keeps track of functions seen, to avoid duplicating entries
-    # in `symbols`
-    functions: Dict[str, Symbol] = {}
-
     for term in terms:
         # Skip verbatim terms: these shouldn't be converted to individual
         # symbols
@@ -661,14 +657,11 @@ def parse_equation(equation: str) -> List[Symbol]:
         name = symbol.name
 
         if symbol.type == Type.FUNCTION:
-            # Function previously encountered: Test for equality against the
-            # previous entry
-            if name in functions:
-                assert symbol == functions[name]
-            # Otherwise, store
-            else:
-                symbols[name] = symbol
-                functions[name] = symbol
+            # Combine with any earlier use of the name in this equation:
+            # repeated calls of one function collapse to a single symbol; a
+            # name used both as a function and as a variable, parameter or
+            # error is a clash (`SymbolError`), as in the opposite order
+            symbols[name] = symbols.get(name, symbol).combine(symbol)
             continue
 
         # Update endogenous variables with the equation and code information
